@@ -318,6 +318,8 @@ class ConfigParser(ABC):
         """
         # init
         key = config_l[i].strip()
+        if key == "_config_":
+            raise ValueError(f"invalid config line {key!r}, reserved word")
         i += 1
         i_next = 0
         data: DLStr = {"_config_": []}
